@@ -5,7 +5,7 @@
     exactly when space is lacking; and that the fixed root region of FAT12/16 refuses exactly when the serialised entries — 32
     bytes per SLOT, long-name slots included — do not fit, and otherwise writes exactly the region, never behind it
     (C09_root_full_refused, C09_root_rewrite_exact; the C01-m5 / C09-m5 mutations counted entries instead of slots). *)
-From Coq Require Import ZArith List Bool.
+From Coq Require Import ZArith List Bool Lia.
 From PyFatV Require Import Base.Bytes Base.PyEnv Gen.Pure Model.Codec Model.Dir Model.FS Proofs.FatTable Proofs.Session Proofs.DirState.
 Import ListNotations.
 Open Scope Z_scope.
@@ -40,3 +40,54 @@ Theorem C09_root_rewrite_exact : forall s loc es s', is_root_fixed s loc = true 
   exists data, s_log s' = (root_addr s, data) :: s_log s /\ lenZ data = sz /\ firstn (length (ser_dir es)) data = ser_dir es.
 Proof. exact root_rewrite_exact. Qed.
 Print Assumptions C09_root_rewrite_exact.
+
+(** "removing entries to make room": the allocation hint never skips a free cluster.  [hint_inv] (no free in-range cluster below
+    the hint) holds after mount (hint 0), is kept by a granted allocation (a refused one returns no state), by the release of a
+    chain — the hint goes down to the LOWEST released cluster, in whatever order the chain visits its clusters (C09-m10 lowered it
+    to the head only) — and by the single-entry updates that link or end a chain; the released clusters are free, in range and not
+    below the hint afterwards, and under [hint_inv] the allocator refuses exactly when the WHOLE table has too few free clusters. *)
+From PyFatV Require Import Proofs.Chains Proofs.Hint.
+Theorem C09_hint_kept_by_allocate : forall s size erase cs s',
+  vt (ft s) -> 0 <= s_hint s -> hint_inv s -> allocate s size erase = Ok (cs, s') -> hint_inv s'.
+Proof. exact allocate_hint_inv. Qed.
+Print Assumptions C09_hint_kept_by_allocate.
+Theorem C09_hint_kept_by_release : forall s c s', hint_inv s -> free_chain s c = Ok s' -> hint_inv s'.
+Proof. exact free_chain_hint_inv. Qed.
+Print Assumptions C09_hint_kept_by_release.
+Theorem C09_hint_kept_by_link : forall s k v, hint_inv s -> 0 <= k -> v <> Gen.FREE_CLUSTER (ft s) ->
+  hint_inv (upd_fat s (updZ (s_fat s) k v) (s_hint s)).
+Proof. exact upd_entry_hint_inv. Qed.
+Print Assumptions C09_hint_kept_by_link.
+Theorem C09_released_room_is_found : forall s c s' cs, free_chain s c = Ok s' -> chain_all s c = Ok cs ->
+  s_hint s' <= s_hint s /\
+  Forall (fun x => nthZ (s_fat s') x = Gen.FREE_CLUSTER (ft s) /\ s_hint s' <= x /\ in_range (ft s) (max_cluster s) x \/ Gen.MAX_DATA_CLUSTER (ft s) < x) cs.
+Proof. exact free_chain_frees. Qed.
+Print Assumptions C09_released_room_is_found.
+Theorem C09_refused_only_when_full : forall s size erase,
+  s_ro s = false -> 0 <= s_hint s <= lenZ (s_fat s) -> hint_inv s -> 0 <= Gen.calc_num_clusters (s_p s) size ->
+  (allocate s size erase = Err ENOSPC <->
+   (count_free (s_fat s) (ft s) (max_cluster s) (length (s_fat s)) 0 < Z.to_nat (Gen.calc_num_clusters (s_p s) size))%nat).
+Proof. exact allocate_enospc_total. Qed.
+Print Assumptions C09_refused_only_when_full.
+
+(** the hypotheses are met, and the scenario of C09-m10 computes: a file whose chain is 6 -> 7 -> 2 -> 3 (its head is NOT its lowest
+    cluster), clusters 4 and 5 taken by others, hint 8; releasing it brings the hint to 2 and four clusters are granted again *)
+From PyFatV Require Import Properties.C03.
+Import ListNotations.
+Definition ex09 : st := upd_fat ex_st ([4088; 4095; 3; 4095; 4095; 4095; 7; 2] ++ repeat 0 95) 8.
+Example C09_room_example :
+  hint_inv ex09 /\ chain_all ex09 6 = Ok [6; 7; 2; 3] /\
+  exists s', free_chain ex09 6 = Ok s' /\ s_hint s' = 2 /\ hint_inv s' /\
+             exists s'', allocate s' (4 * 512) false = Ok ([2; 3; 6; 7], s'').
+Proof.
+  assert (H0 : hint_inv ex09).
+  { unfold hint_inv, hint_ok. intros c Hc _. change (s_hint ex09) with 8 in Hc.
+    assert (Hcases : c = 0 \/ c = 1 \/ c = 2 \/ c = 3 \/ c = 4 \/ c = 5 \/ c = 6 \/ c = 7) by lia.
+    destruct Hcases as [->|[->|[->|[->|[->|[->|[->| ->]]]]]]]; vm_compute; discriminate. }
+  split; [exact H0|]. split; [vm_compute; reflexivity|].
+  destruct (free_chain ex09 6) as [s'|] eqn:E; [|vm_compute in E; discriminate].
+  exists s'. split; [reflexivity|]. split.
+  - revert E. vm_compute. intros E. inversion E. reflexivity.
+  - split; [exact (free_chain_hint_inv _ _ _ H0 E)|].
+    revert E. vm_compute. intros E. inversion E. eexists. reflexivity.
+Qed.
